@@ -167,3 +167,11 @@ Definition path_join (a b : list Z) : list Z :=
          | _ => if ends_with_slash a then a ++ b else a ++ [47] ++ b
          end
   end.
+
+(* ---- the part of the file system a CLI action reads: path -> content ---- *)
+Definition fsmap := list (list Z * list Z).
+Fixpoint fs_read (fs : fsmap) (p : list Z) : option (list Z) :=
+  match fs with
+  | [] => None
+  | (q, c) :: r => if zeqb_list p q then Some c else fs_read r p
+  end.
